@@ -42,5 +42,5 @@ Proof.
 Qed.
 
 (* a symmetric n x n factor travels as n (n + 1) / 2 elements when it is sent alone *)
-Lemma fac_add_direct c bs n : pW c <> 1 -> snd (fac_add c None bs n) = [ar n].
+Lemma fac_add_direct c bs n : pW c <> 1 -> snd (fac_add c None bs n) = [ar (pfdt c) n].
 Proof. intros H. unfold fac_add. destruct (Nat.eqb_spec (pW c) 1); [contradiction|reflexivity]. Qed.
